@@ -385,6 +385,44 @@ pub fn o10(dir: &str, thorough: bool, seed: u64) {
             }
         }
     }
+    // planted shapes: the replaced sub-formula occurs several times, inside and outside (restricted) quantifier scopes
+    for xg in graphs(thorough, &[1, 2]) {
+        begin_graph(&mut out, &xg);
+        let a0 = xg.var_names[0].clone();
+        let ctx0 = rand_ctx(&mut rng, &xg, &["p", "d"]);
+        let subs = [format!("(EF {a0})"), format!("(!{{y}}: AX {{y}})"), format!("(~{a0} EU %p%)"), format!("(AG ({a0} | EX {a0}))")];
+        let templates = [
+            "3{x} in %d%: ((@{x}: EX (AX G)) & EF ({x} & (AX G)))",
+            "(V{x} in %d%: (AX G | {x})) & (AX G)",
+            "(AX G) & (!{x} in %d%: ((AX G) | EF {x}))",
+            "!{x}: ((EX G) & (3{x2}: @{x2}: (EX G)))",
+            "(G EU (AX G)) | (3{x} in %d%: @{x}: (AX G))",
+        ];
+        for (gi, g) in subs.iter().enumerate() {
+            if thorough || gi == (rng.below(subs.len())) || gi == 0 {
+                let Ok(Ok(set)) = guarded(std::panic::AssertUnwindSafe(|| model_check_extended_formula_dirty(g, &xg.graph, &ctx0))) else { continue };
+                let mut ctx = ctx0.clone();
+                ctx.insert(s("w0"), set);
+                for tpl in templates.iter() {
+                    if tpl.contains("{x2}") && xg.k < 2 {
+                        continue;
+                    }
+                    let tpl = tpl.replace("{x2}", "{z}");
+                    let f = tpl.replace("G", g);
+                    let f2 = tpl.replace("G", "%w0%");
+                    put_ctx(&mut out, &xg, &ctx);
+                    let base = run_rec(&mut out, &xg, "ext_dirty", &[f.clone()], &ctx);
+                    if !base.starts_with("ok") {
+                        continue;
+                    }
+                    let r = run_rec(&mut out, &xg, "ext_dirty", &[f2.clone()], &ctx);
+                    out.count("planted_substitution");
+                    out.oracle(r == base, "C10", "result changes when a repeated closed sub-formula is replaced by its raw result",
+                        &format!("{} k={} {f}  ~>  {f2}", xg.name, xg.k));
+                }
+            }
+        }
+    }
     // benchmark-size models: the laws on the implementation only (no explicit enumeration possible)
     if thorough {
         for path in ["/repo/test/model-010-13var-2in.aeon", "/repo/test/model-022-17var-5in.aeon"] {
